@@ -8,4 +8,4 @@ Extraction "hs_model.ml"
   skx_payload encryptTicket session_state finished_sum masterFromPreMasterSecret
   default_gm_suite_ids default_tls_suite_ids gmCipherSuites cipherSuites find_suite
   ecc_ckx_prefix ecc_skx_prefix certificateRequestMsgGM_unmarshal read_handshakes readHandshake_raw
-  term_eqb verify decrypt tlist.
+  term_eqb verify decrypt tlist rrun rfeed client_wants_ccs server_wants_ccs match_hostnames.
